@@ -449,6 +449,9 @@ func c08(c *ev.Ctx) {
 	c.Sample(map[string]interface{}{"kind": "text", "script": clip(cases[0].Script, 200)})
 	c.Sample(map[string]interface{}{"kind": "struct", "script": cases[nText+2*len(c08FaultScripts)].Script, "object": gen.RandStruct(rand.New(rand.NewSource(cases[nText+2*len(c08FaultScripts)].ObjSeed)), 4, 45, 20).Desc})
 	c08UsableAfterwards(c)
+	// Prepare / Dump / Execute do not panic after a second Prepare that was accepted, refused
+	// by the compiler, or refused by the size limits (the stream is shared with C20)
+	c20RePrepare(c)
 	c08Concurrent(c, self, work)
 	c08Probes(c, self, work)
 }
